@@ -5,6 +5,7 @@ import Mouette.Lemmas.VolKey
 import Mouette.Lemmas.VolBuckets
 import Mouette.Lemmas.VolOrient
 import Mouette.Lemmas.VolLazyInv
+import Mouette.Lemmas.VolLazyClear
 import Mouette.Lemmas.VolSpec
 import Mouette.Lemmas.VolConforming
 import Mouette.Lemmas.VolBorder
@@ -25,7 +26,8 @@ namespace Mouette.Props.C03
 open Mouette.Vol Mouette.VolLazy
 namespace G
 export Mouette.Generated.C03 (adjTable subFace cellAdjLen cellAdjRange completedTable cellFacesTable
-  bcOrientArgs bcOrientKeep bcOrientFlip sbOrientArgs sbOrientKeep sbOrientFlip volumeGuards initAttrs clearAttrs)
+  bcOrientArgs bcOrientKeep bcOrientFlip sbOrientArgs sbOrientKeep sbOrientFlip volumeGuards initAttrs clearAttrs
+  clearId meshGuards meshinitAttrs walkLoops edgeMapDomain)
 end G
 
 /-! ## 1. Translated fragments (finite tables: `decide`) -/
@@ -33,9 +35,17 @@ end G
 /-- the face table of `_compute_adjacent_cell` is the model's `tetTable` -/
 theorem adjTable_eq_model : G.adjTable = Mesh.tetTable := by decide
 
-/-- `F = C[:i] + C[i+1:]`, `for i in range(4)`, under `len(C)==4` -/
-theorem subFace_eq_model : (∀ C i, G.subFace C i = Mesh.subFace C i) ∧ G.cellAdjRange = 4 ∧ G.cellAdjLen = 4 :=
-  ⟨fun _ _ => rfl, by decide, by decide⟩
+/-- `F = C[:i] + C[i+1:]` (or the same sub-list written as a comprehension), `for i in range(4)`, under `len(C)==4`:
+on 4-vertex cells the translated expression is the model's `subFace` -/
+theorem subFace_eq_model :
+    (∀ a b c d i, i < 4 → G.subFace [a, b, c, d] i = Mesh.subFace [a, b, c, d] i) ∧ G.cellAdjRange = 4 ∧ G.cellAdjLen = 4 := by
+  refine ⟨?_, by decide, by decide⟩
+  intro a b c d i hi
+  have : i = 0 ∨ i = 1 ∨ i = 2 ∨ i = 3 := by omega
+  rcases this with rfl | rfl | rfl | rfl <;>
+    first
+    | rfl
+    | simp [Mouette.Generated.C03.subFace, Mesh.subFace, List.range, List.range.loop, List.filter]
 
 /-- row `i` of the table does not contain local vertex `i` and consists of the three others -/
 theorem adjTable_row_omits_index :
@@ -81,6 +91,16 @@ theorem sbOrient_rule_eq_model (pa pb pc pd : Pt) (a b c : Nat) :
   simp [interpRule, Mouette.Generated.C03.sbOrientArgs,
     Mouette.Generated.C03.sbOrientKeep, Mouette.Generated.C03.sbOrientFlip]
 
+/-- `_sort_edge_neighborhoods`: two `while True` walks per edge; BOTH restart from the first cell of `_adjE2C[e]` with
+zeroed counters; the first counts faces/cells upwards (+1), the second downwards (−1); each stops on
+`nextC is None or nextC in keys_cell` — exactly the model's `sortEdge` (`walk … c0 p1`, `walk … c0 p2`, keys
+`enumFrom1 · 1` / `enumFrom1 · (-1)`) -/
+theorem walkLoops_eq_model : G.walkLoops = [[1, 1, 1], [1, -1, -1]] := by decide
+
+/-- the edge index maps of `_BoundaryConnectivity` are built over `complete_mesh.boundary_edges`, without filter —
+the model's `m2bEdgeTable` maps over `boundaryEdges` -/
+theorem edgeMapDomain_eq_model : G.edgeMapDomain = "boundary_edges" := by decide
+
 /-! ## 2. Lazy caches: no history of queries can read a missing or `None` cache -/
 
 /-- Generic: a well-guarded table is safe for EVERY history (any length, any order, `clear` included). -/
@@ -100,6 +120,41 @@ theorem volumeGuards_init_covers_caches :
 theorem volume_history_safe (qs : List Nat) (hq : ∀ q ∈ qs, q ∈ G.volumeGuards.alphabet) :
     ∀ o ∈ G.volumeGuards.run G.volumeGuards.fresh.1 qs, o = .ok :=
   (history_safe _ volumeGuards_wellGuarded qs hq).2
+
+/-! ### Round 3: used objects — `clear()` and the mesh-level caches -/
+
+/-- `clear()` of the translated table resets every cache: from EVERY reachable state it leads to the state right
+after the constructor (a `clear` that forgets a cache breaks this `decide`) -/
+theorem volumeGuards_clear_restores_fresh : G.volumeGuards.clearResets G.clearId = true := by decide +kernel
+
+/-- Generic: after ANY history of public queries followed by `clear()`, the object is in the fresh state, so the
+queries that follow behave exactly as the same queries on a freshly built object (the n-th run on a used object
+equals the first run on a fresh one) -/
+theorem history_after_clear_eq_fresh (t : Table) (h : t.wellGuarded = true) {c : Nat} (hc : t.clearResets c = true)
+    (qs qs' : List Nat) (hq : ∀ q ∈ qs, q ∈ t.alphabet) :
+    t.finalState t.fresh.1 (qs ++ [c]) = t.fresh.1
+    ∧ t.run (t.finalState t.fresh.1 (qs ++ [c])) qs' = t.run t.fresh.1 qs' :=
+  ⟨t.finalState_clear h hc qs hq, t.run_after_clear h hc qs qs' hq⟩
+
+theorem volume_history_after_clear (qs qs' : List Nat) (hq : ∀ q ∈ qs, q ∈ G.volumeGuards.alphabet) :
+    G.volumeGuards.run (G.volumeGuards.finalState G.volumeGuards.fresh.1 (qs ++ [G.clearId])) qs'
+      = G.volumeGuards.run G.volumeGuards.fresh.1 qs' :=
+  (history_after_clear_eq_fresh _ volumeGuards_wellGuarded volumeGuards_clear_restores_fresh qs qs' hq).2
+
+/-- the border/boundary caches of `VolumeMesh` itself (`boundary_faces`, …, `is_vertex_on_border`, `is_edge_on_border`,
+`enable_boundary_connectivity`; table translated from the class body, properties included): every history of its
+public accessors succeeds, and `__init__` creates every attribute the class ever stores -/
+theorem meshGuards_wellGuarded : G.meshGuards.wellGuarded = true := by decide +kernel
+
+theorem meshGuards_init_covers_attrs :
+    (List.range G.meshGuards.nAttr).all (fun x => G.meshinitAttrs.contains x) = true := by decide +kernel
+
+theorem mesh_history_safe (qs : List Nat) (hq : ∀ q ∈ qs, q ∈ G.meshGuards.alphabet) :
+    ∀ o ∈ G.meshGuards.run G.meshGuards.fresh.1 qs, o = .ok :=
+  (history_safe _ meshGuards_wellGuarded qs hq).2
+
+example : ["boundary_faces", "interior_edges", "is_edge_on_border", "enable_boundary_connectivity", "boundary_mesh"].all
+    (fun n => G.meshGuards.alphabet.contains (G.meshGuards.methodNames.idxOf n)) = true := by decide
 
 /-- non-vacuity: the alphabet is not empty and the machine does detect a missing attribute
 (a table whose `__init__` forgets a guarded cache is rejected) -/
